@@ -580,7 +580,7 @@ def parallel(fns, n):
 # ================================================================ C12: routing (MuxRoute)
 
 MR_SEQ_PREDS = ["AtMostOne", "RightOne", "Identical", "PerConnFifo", "NoForeignUfrag", "GoneAfterRemove"]
-MR_CONC_PREDS = ["AtMostOne", "RightOneWeak", "Identical", "PerConnFifo", "NoForeignUfrag", "GoneAfterRemove"]
+MR_CONC_PREDS = ["AtMostOne", "RightOneWeak", "RightOneAtQuiescence", "Identical", "PerConnFifo", "NoForeignUfrag", "GoneAfterRemove"]
 CANON = {"m1": "s1", "m2": "s2"}
 
 
@@ -590,7 +590,7 @@ def canon(x):
 
 def mr_label(e):
     ev = e["ev"]
-    if ev in ("Drain",):
+    if ev in ("Drain", "ProbeOp"):
         return None
     if ev == "GetConn":
         return "GetConn(%s,%s)" % (e["u"], e["f"])
@@ -742,7 +742,9 @@ def mr_config(work, binary, verdict, stats, seed, key, c, timeout=900):
     must_hold(r, key)
     g = Graph(d.path(key + ".dot"))
     paths, _ = g.plan(seed)
-    replay(work, binary, "mr", paths, mr_job(c), consts, MR_SEQ_PREDS if seq else MR_CONC_PREDS, key, seed, stats, verdict,
+    # the recorded traces end with one probe datagram per source (concurrent mode): room for them in the trace spec's budget
+    tr_consts = consts if seq else mr_consts(dict(c, grams=c.get("grams", 1) + len(mr_job(c)["keys"])))
+    replay(work, binary, "mr", paths, mr_job(c), tr_consts, MR_SEQ_PREDS if seq else MR_CONC_PREDS, key, seed, stats, verdict,
            graph=g, cover_key=key, nshards=c.get("shards", 4))
 
 
